@@ -1,11 +1,16 @@
-"""C05 - integer arithmetic is exact and comparisons agree with mathematics (integer part)."""
+"""C05 - integer and rational arithmetic is exact and comparisons agree with mathematics."""
 import json, os, random
+from fractions import Fraction
 
 from lib import common, pipeline
 
 PROP = "C05"
 SPEC = os.path.join(common.VERIF, "spec", "Numeric")
-OPS = ["+", "-", "*", "floor", "ceiling", "truncate", "mod", "rem", "<", "<=", ">", "=", "max", "min", "gcd", "abs"]
+ARITH = ["+", "-", "*", "/", "max", "min"]
+CMP = ["<", "<=", ">", ">=", "=", "/="]
+INT2 = ["floor", "ceiling", "truncate", "round", "mod", "rem", "gcd", "lcm", "logand", "logior", "logxor"]
+UNARY = ["abs", "1+", "1-", "zerop", "plusp", "minusp"]
+MIN, MAX = -2**63, 2**63 - 1
 
 
 def grid():
@@ -15,74 +20,142 @@ def grid():
     return g
 
 
-def features(op, a, b, r=None):
-    """Tags of inputs on which the pinned tree is known to be wrong (open findings only)."""
-    f = set()
-    big = lambda x: not (-2**63 <= x < 2**63)
-    exact = {"+": a + b, "-": a - b, "*": a * b}.get(op)
-    if op in ("+", "-", "*") and exact is not None and big(exact) and not big(a) and not big(b):
-        f.add("fixnum-overflow")
-    if op == "-" and (big(a) or big(b)):
-        f.add("bignum-subtract-in-place")
-    if op in ("floor", "mod") and b < 0:
-        f.add("floor-negative-divisor")
-    if op in ("ceiling",) :
-        f.add("ceiling")
-    if op in ("gcd",) and (big(a) or big(b)):
-        f.add("gcd-bignum")
-    if op == "abs" and a == -2**63:
-        f.add("fixnum-overflow")
-    if op in ("floor", "ceiling", "truncate", "mod", "rem") and a == -2**63 and b == -1:
-        f.add("fixnum-overflow")          # the quotient 2^63 does not fit a fixnum
-    if op == "gcd" and -2**63 in (a, b):
-        f.add("fixnum-overflow")          # |−2^63| does not fit a fixnum
-    if (big(a) or big(b)) and op in ("+", "-", "*", "floor", "ceiling", "truncate", "mod", "rem", "max", "min", "abs"):
-        f.add("bignum-result-not-demoted")
-    return f
+def big(x):
+    return not (MIN <= x <= MAX)
+
+
+def wrap(x):
+    return (x - MIN) % 2**64 + MIN
+
+
+def lit(x):
+    return str(x) if isinstance(x, int) or x.denominator == 1 else f"{x.numerator}/{x.denominator}"
+
+
+def known_shape(s, b, ev):
+    """Maps a rejection to the open finding whose recorded shape it has, or None.
+    Every test is on the observed event, not merely on the inputs."""
+    op, why = s["op"], b["why"]
+    try:
+        a, bb = Fraction(s["a"]), (Fraction(s["b"]) if not s.get("fb") and s.get("b") else Fraction(0))
+    except (ValueError, ZeroDivisionError):
+        return None
+    ints = a.denominator == 1 and bb.denominator == 1
+    ai, bi = int(a), int(bb)
+    if why == "not-canonical" and ev["ty"] == "bignum":
+        return "bignum-result-not-demoted"
+    if why == "not-canonical" and ev["ty"] == "ratio":
+        return "integer-valued-ratio-not-converted"
+    if why == "wrong-vs-float":
+        return "integer-float-comparison-through-float64"
+    if why.startswith("failed:nonrational") and op in ("+", "-", "*", "/") and (a.denominator != 1 or bb.denominator != 1) \
+            and (big(a.numerator) or big(a.denominator) or big(bb.numerator) or big(bb.denominator)):
+        return "bignum-ratio-mix-goes-float"
+    if op in ("gcd", "lcm") and why.startswith("failed:err") and (big(ai) or big(bi)) and ints:
+        return "gcd-bignum"
+    if op in ("floor", "mod") and ints and bi < 0 and why == "wrong":
+        return "floor-negative-divisor"
+    if ints and op in ("abs", "1+", "1-", "gcd", "lcm", "floor", "ceiling", "truncate", "round", "mod", "rem", "expt", "ash", "isqrt", "/"):
+        # the exact result (or an intermediate) leaves the fixnum range and the fixnum path wrapped / fell back to floats
+        if MIN in (ai, bi) or (op == "1+" and ai == MAX) or (op == "1-" and ai == MIN) or op in ("expt", "ash", "lcm") \
+                or (op == "round" and abs(bi) > 2**62):     # round doubles the remainder in machine arithmetic
+            return "fixnum-overflow-other-operators"
+    return None
 
 
 def run(tier, seed):
     rep = common.Report(PROP, tier, seed)
     vdrive = common.build_harness()
+    # design check: the specification's own operators against TLC's integers and against each other
+    laws = common.run_tlc_with_files(SPEC, "NumericLaws", "NumericLaws.cfg", {}, timeout=900)
+    if laws["errors"] or laws["rc"] != 0:
+        raise common.Infra("NumericLaws: " + "; ".join(laws["errors"][:3]))
     rng = random.Random(seed)
     g = grid()
     stimuli = []
+
+    def add(op, a, b="", k=0, fb=False):
+        stimuli.append({"id": len(stimuli) + 1, "op": op, "a": lit(a) if not isinstance(a, str) else a,
+                        "b": b if isinstance(b, str) else lit(b), "k": k, "fb": fb})
+
+    # (1) the boundary grid, all pairs x every binary operator; unary operators on the grid
     for a in g:
+        for op in UNARY:
+            add(op, a)
+        for k in (0, 1, 2, 15, 31, 62, 63, 64, 65, -1, -2, -31, -63, -64, -65, -200):
+            add("ash", a, k=k)
+        for k in (0, 1, 2, 3, 5, 16):
+            if abs(a) < 2**65:
+                add("expt", a, k=k)
+        if a >= 0:
+            add("isqrt", a)
         for b in g:
-            for op in OPS:
-                if op in ("floor", "ceiling", "truncate", "mod", "rem") and b == 0:
+            for op in ARITH + CMP + INT2:
+                if b == 0 and op in ("/", "floor", "ceiling", "truncate", "round", "mod", "rem"):
                     continue
-                stimuli.append({"id": len(stimuli) + 1, "op": op, "a": str(a), "b": str(b)})
-    extra = 2000 if tier == "quick" else 100000
+                add(op, a, b)
+    # (2) ratios of grid values
+    small = [x for x in g if abs(x) in (1, 2, 7, 2**31, 2**63, 2**64 + 1)]
+    rats = [Fraction(n, d) for n in small for d in small if d > 0][:80]
+    for x in rats[::3]:
+        for y in rats[::5]:
+            for op in ARITH + CMP:
+                if y == 0 and op == "/":
+                    continue
+                add(op, x, y)
+        for op in UNARY:
+            add(op, x)
+    # (3) comparisons against the double floats adjacent to the boundary integers
+    for a in g:
+        for f in (float(a),):
+            for fl in {f, f * (1 + 2**-52), f * (1 - 2**-52)} if f not in (0.0,) else {0.0, 5e-324, -5e-324}:
+                for op in CMP:
+                    add(op, a, repr(fl).replace("e", "d") if "e" in repr(fl) else repr(fl) + "d0", fb=True)
+    # (4) seeded operands up to 200 bits
+    extra = 3000 if tier == "quick" else 150000
     for _ in range(extra):
-        bits = rng.choice([8, 31, 62, 63, 64, 65, 128, 200])
-        a = rng.getrandbits(bits) * rng.choice([1, -1])
+        a = rng.getrandbits(rng.choice([8, 31, 62, 63, 64, 65, 128, 200])) * rng.choice([1, -1])
         b = rng.getrandbits(rng.choice([8, 31, 63, 64, 128])) * rng.choice([1, -1])
-        op = rng.choice(OPS)
-        if op in ("floor", "ceiling", "truncate", "mod", "rem") and b == 0:
-            b = 3
-        stimuli.append({"id": len(stimuli) + 1, "op": op, "a": str(a), "b": str(b)})
+        op = rng.choice(ARITH + CMP + INT2 + ["ash", "isqrt", "expt"] + UNARY)
+        if op == "ash":
+            add(op, a, k=rng.randint(-130, 130))
+        elif op == "expt":
+            add(op, rng.getrandbits(rng.choice([4, 16, 33])) * rng.choice([1, -1]), k=rng.randint(0, 24))
+        elif op == "isqrt":
+            add(op, abs(a))
+        elif op in UNARY:
+            add(op, a)
+        else:
+            if b == 0 and op in ("/", "floor", "ceiling", "truncate", "round", "mod", "rem"):
+                b = 3
+            if op in ARITH + CMP and rng.random() < 0.3:
+                add(op, Fraction(a, abs(b) + 1), Fraction(b, rng.getrandbits(40) + 1))
+            else:
+                add(op, a, b)
     open_feats = {f["feature"]: f for f in common.load_findings(PROP) if f.get("status") == "open"}
-    events = pipeline.drive(vdrive, "c05", stimuli, chunk=5000)
-    res = pipeline.accept(SPEC, "NumericTrace", "NumericTrace.cfg", events)
+    events = pipeline.drive(vdrive, "c05", stimuli, chunk=4000)
+    res = pipeline.accept(SPEC, "NumericTrace", "NumericTrace.cfg", events, timeout=2400)
     by_id = {s["id"]: s for s in stimuli}
     hit = {}
     for b in res["bad"]:
         s = by_id[b["t"]]
-        feats = features(s["op"], int(s["a"]), int(s["b"]))
-        known = [f for f in feats if f in open_feats]
-        if known:
-            for f in known:
-                hit.setdefault(f, []).append(b)
+        feat = known_shape(s, b, b["event"])
+        if feat in open_feats:
+            hit.setdefault(feat, []).append(b)
         else:
             rep.violation({"property": PROP, "stimulus": s, "rejected": {k: b[k] for k in ("why", "op")}, "event": b["event"]},
-                          f"({s['op']} {s['a']} {s['b']}): {b['why']}")
+                          f"{b['event']['src']}: {b['why']}")
     for feat, f in open_feats.items():
         if feat in hit:
             rep.known.append(f["summary"] + f" ({len(hit[feat])} events)")
     rep.cov.update({"states": res["states"], "transitions": res["lines"], "traces_validated_against_impl": len(stimuli),
-                    "evaluations": len(stimuli), "distinct_nontrivial": len({(s["op"], s["a"], s["b"]) for s in stimuli}),
-                    "rule": f"all pairs of a 25-value boundary grid x {len(OPS)} operators (exhaustive) + {extra} seeded operands up to 200 bits; "
-                            "operands are re-read after every call; results checked by defining relations on limb arithmetic",
+                    "evaluations": len(stimuli), "distinct_nontrivial": len({(s["op"], s["a"], s["b"], s["k"]) for s in stimuli}),
+                    "rule": f"all pairs of a {len(g)}-value boundary grid (0, +-1, +-2, +-7, +-2^31, +-2^32, +-2^62, 2^63-1, -2^63, +-2^63, +-2^64, "
+                            f"+-(2^64+-1), +-(2^130+12345)) x {len(ARITH + CMP + INT2)} binary operators, unary operators, ash / expt / isqrt, ratios of "
+                            f"grid values, comparisons against adjacent double floats (exhaustive over the grid) + {extra} seeded operands up to "
+                            "200 bits; operands are stored in variables and re-read after every call; every event is judged under TLC by the "
+                            "acceptor NumericTrace: defining relations on limb arithmetic with verified certificates, lowest terms, "
+                            "canonical representation type, operands unchanged",
+                    "design_check": "NumericLaws.tla: limb arithmetic = TLC integers on a grid straddling the limb base; floor certificate unique; bit operations incl. negatives (De Morgan, and + or = sum); rational laws - invariant holds",
                     "samples": stimuli[:2] + stimuli[-2:], "exhaustive": False, "probes": {k: len(v) for k, v in hit.items()}})
     return rep.finish()
